@@ -137,7 +137,51 @@ func putObserved(m *sse.Message, err error) val.V {
 	return val.L(val.N(0), val.S(m.ID.String()))
 }
 
+// topicArena hands out topic lists as views of shared backing arrays: a list that occurs as a contiguous run of an
+// earlier list is returned as a sub-slice of it (same first element, another length - "tiers[:1]" and "tiers[:3]"),
+// with its spare capacity.  The replayers keep the slices they are given; nothing ever writes to them.
+type topicArena struct {
+	on     bool
+	arrays [][]string
+}
+
+func (a *topicArena) view(ts []string) []string {
+	if !a.on || len(ts) == 0 {
+		return ts
+	}
+	for _, arr := range a.arrays {
+		for i := 0; i+len(ts) <= len(arr); i++ {
+			ok := true
+			for j := range ts {
+				if arr[i+j] != ts[j] {
+					ok = false
+					break
+				}
+			}
+			if ok {
+				return arr[i : i+len(ts)]
+			}
+		}
+	}
+	a.arrays = append(a.arrays, ts)
+	return ts
+}
+
+// both ways of handing over topic lists must behave alike; if they do not, the aliased run is the observation
+func bothTopicModes(run func(a *topicArena) val.V) val.V {
+	fresh := run(&topicArena{})
+	aliased := run(&topicArena{on: true})
+	if aliased.String() != fresh.String() {
+		return aliased
+	}
+	return fresh
+}
+
 func execFinite(in val.V) val.V {
+	return bothTopicModes(func(a *topicArena) val.V { return execFiniteWith(in, a) })
+}
+
+func execFiniteWith(in val.V, arena *topicArena) val.V {
 	r, err := sse.NewFiniteReplayer(in.At(0).Int(), in.At(1).Truth())
 	if err != nil {
 		return val.L(val.N(1))
@@ -149,14 +193,14 @@ func execFinite(in val.V) val.V {
 			if op.At(0).Num() == 0 {
 				msg := mkMsg(op.At(1), op.At(2).Num())
 				before := msg.String()
-				m, err := r.Put(msg, op.At(3).Strs())
+				m, err := r.Put(msg, arena.view(op.At(3).Strs()))
 				if msg.String() != before {
 					return val.S("Put mutated its argument")
 				}
 				return val.L(putObserved(m, err), encState(r.VerifState(), time.Time{}, false))
 			}
 			w := &scriptWriter{script: scriptOf(op.At(3))}
-			err := r.Replay(sse.Subscription{Client: w, LastEventID: lastID(op.At(1)), Topics: op.At(2).Strs()})
+			err := r.Replay(sse.Subscription{Client: w, LastEventID: lastID(op.At(1)), Topics: arena.view(op.At(2).Strs())})
 			return val.L(val.L(val.List(w.calls), val.N(errCode(err))), encState(r.VerifState(), time.Time{}, false))
 		})
 		outs = append(outs, res)
@@ -170,6 +214,10 @@ func execFinite(in val.V) val.V {
 var baseTime = time.Unix(1_700_000_000, 0)
 
 func execValid(in val.V) val.V {
+	return bothTopicModes(func(a *topicArena) val.V { return execValidWith(in, a) })
+}
+
+func execValidWith(in val.V, arena *topicArena) val.V {
 	r, err := sse.NewValidReplayer(time.Duration(in.At(0).Signed()), in.At(1).Truth())
 	if err != nil {
 		return val.L(val.N(1))
@@ -188,14 +236,14 @@ func execValid(in val.V) val.V {
 			case 0:
 				msg := mkMsg(op.At(2), op.At(3).Num())
 				before := msg.String()
-				m, err := r.Put(msg, op.At(4).Strs())
+				m, err := r.Put(msg, arena.view(op.At(4).Strs()))
 				if msg.String() != before {
 					return val.S("Put mutated its argument")
 				}
 				return val.L(putObserved(m, err), encState(r.VerifState(), baseTime, true))
 			case 1:
 				w := &scriptWriter{script: scriptOf(op.At(4))}
-				err := r.Replay(sse.Subscription{Client: w, LastEventID: lastID(op.At(2)), Topics: op.At(3).Strs()})
+				err := r.Replay(sse.Subscription{Client: w, LastEventID: lastID(op.At(2)), Topics: arena.view(op.At(3).Strs())})
 				return val.L(val.L(val.List(w.calls), val.N(errCode(err))), encState(r.VerifState(), baseTime, true))
 			default:
 				r.GC()
